@@ -259,11 +259,12 @@ def run(job):
                 acc.states += 1
                 acc.nontrivial += 1
                 check(acc, desc, beh)
-                if (_idx // job["of"]) % 6 == 0:
+                every = 6 if job["tier"] == "quick" else 18
+                if (_idx // job["of"]) % every == 0:
                     acc.states += 2
                     check(acc, desc, beh, variant="rev")
                     check(acc, desc, beh, variant="hist")
-                if (_idx // job["of"]) % 6 == 3 or any(x[1] in ("0", "1", "x") for x in desc["nodes"]):
+                if (_idx // job["of"]) % every == 3 or (any(x[1] in ("0", "1", "x") for x in desc["nodes"]) and (_idx // job["of"]) % (every // 6) == 0):
                     acc.states += 1
                     check(acc, desc, beh, variant="twice")
             acc.sample({"desc": desc})
